@@ -27,6 +27,13 @@ class ObjModel(object):
         self.cls = ctx.repo.cls(self.modname, self.clsname)
         self.module = self.cls.module
         self.summary = parse_summary(ctx, v)
+        if self.summary.get("model_gap"):
+            raise AnalysisError(
+                "C04.model",
+                "parse_vector writes state the post-parse model does not cover: %s" % self.summary["model_gap"],
+                self.cls.methods["parse_vector"].node,
+                self.module,
+            )
         self.space = T.Space()
         self.accepted = self.summary["accepted"]
         for k, vals in self.accepted.items():
